@@ -978,21 +978,25 @@ func (s *sharedEntryAttributes) validateRange(resultChan chan<- *types.Validatio
 // validateLeafListMinMaxAttributes validates the Min-, and Max-Elements attribute of the Entry if it is a Leaflists.
 func (s *sharedEntryAttributes) validateLeafListMinMaxAttributes(resultChan chan<- *types.ValidationResultEntry) {
 	if schema := s.schema.GetLeaflist(); schema != nil {
-		if schema.MinElements > 0 {
-			if lv := s.leafVariants.GetHighestPrecedence(false, true); lv != nil {
-				tv, err := lv.Update.Value()
-				if err != nil {
-					resultChan <- types.NewValidationResultEntry(lv.Owner(), fmt.Errorf("validating LeafList Min Attribute: %v", err), types.ValidationResultEntryTypeError)
+		// nothing to check if neither min- nor max-elements are defined (max-elements is 0 if unset or the max value if unbounded)
+		if schema.GetMinElements() == 0 && (schema.GetMaxElements() == 0 || schema.GetMaxElements() == math.MaxUint64) {
+			return
+		}
+		if lv := s.leafVariants.GetHighestPrecedence(false, true); lv != nil {
+			tv, err := lv.Update.Value()
+			if err != nil {
+				resultChan <- types.NewValidationResultEntry(lv.Owner(), fmt.Errorf("validating LeafList Min Attribute: %v", err), types.ValidationResultEntryTypeError)
+				return
+			}
+			if val := tv.GetLeaflistVal(); val != nil {
+				numElements := uint64(len(val.GetElement()))
+				// check minelements if set
+				if numElements < schema.GetMinElements() {
+					resultChan <- types.NewValidationResultEntry(lv.Owner(), fmt.Errorf("leaflist %s defines %d min-elements but only %d elements are present", s.Path().String(), schema.GetMinElements(), numElements), types.ValidationResultEntryTypeError)
 				}
-				if val := tv.GetLeaflistVal(); val != nil {
-					// check minelements if set
-					if schema.MinElements > 0 && len(val.GetElement()) < int(schema.GetMinElements()) {
-						resultChan <- types.NewValidationResultEntry(lv.Owner(), fmt.Errorf("leaflist %s defines %d min-elements but only %d elements are present", s.Path().String(), schema.MinElements, len(val.GetElement())), types.ValidationResultEntryTypeError)
-					}
-					// check maxelements if set
-					if len(val.GetElement()) > int(schema.GetMaxElements()) {
-						resultChan <- types.NewValidationResultEntry(lv.Owner(), fmt.Errorf("leaflist %s defines %d max-elements but %d elements are present", s.Path().String(), schema.GetMaxElements(), len(val.GetElement())), types.ValidationResultEntryTypeError)
-					}
+				// check maxelements if set
+				if schema.GetMaxElements() > 0 && numElements > schema.GetMaxElements() {
+					resultChan <- types.NewValidationResultEntry(lv.Owner(), fmt.Errorf("leaflist %s defines %d max-elements but %d elements are present", s.Path().String(), schema.GetMaxElements(), numElements), types.ValidationResultEntryTypeError)
 				}
 			}
 		}
